@@ -136,7 +136,7 @@ def describe(src):
     res["types"] = {k: ann(v.__mro__[1]) for k, v in vars(T).items() if isinstance(v, type) and v.__module__ == T.__name__}
     import kio.schema.errors as E
 
-    res["errors"] = [[c.name, int(c.value), c.retriable] for c in E.ErrorCode]
+    res["errors"] = [[c.name, int(c.value), c.retriable, error_messages(E.__file__).get(c.name)] for c in E.ErrorCode]
     try:
         import kio.schema.index as I
 
@@ -145,6 +145,23 @@ def describe(src):
     except Exception as e:  # noqa: BLE001
         res["index_error"] = repr(e)
     return res
+
+
+def error_messages(path):
+    """member name -> the string literal that follows its assignment in the ErrorCode class body (the generator writes
+    the upstream message there)"""
+    import ast
+
+    out = {}
+    tree = ast.parse(open(path).read())
+    for node in ast.walk(tree):
+        if isinstance(node, ast.ClassDef) and node.name == "ErrorCode":
+            body = node.body
+            for a, b in zip(body, body[1:]):
+                if isinstance(a, ast.Assign) and len(a.targets) == 1 and isinstance(a.targets[0], ast.Name) \
+                        and isinstance(b, ast.Expr) and isinstance(b.value, ast.Constant) and isinstance(b.value.value, str):
+                    out[a.targets[0].id] = b.value.value
+    return out
 
 
 def diff(a, b, path="", out=None, limit=40):
